@@ -69,6 +69,7 @@ fn main() {
         "C10" => facets::c10::run(&opts),
         "C05" => facets::c05::run(&opts),
         "C14" => facets::c14::run(&opts),
+        "C15" => facets::c15::run(&opts),
         other => {
             eprintln!("unknown facet {}", other);
             std::process::exit(2)
